@@ -562,7 +562,9 @@ class SymDatetime:
         return True if r is NotImplemented else r
 
     def __hash__(self):
-        return hash(self.concrete())
+        # a constant hash keeps set/dict membership tests against other kinds of values (strings)
+        # from concretising the instant; equal datetimes still hash equally
+        return 0x5D7
 
     def concrete(self):
         w = self.wall.concrete('datetime') if isinstance(self.wall, SymInt) else self.wall
